@@ -255,9 +255,7 @@ func (e *txEnv) mine(ctx string) *types.Block {
 			return first
 		}
 		if _, serr := e.victim.Store.GetBlockHeader(&h); serr != nil {
-			if getenv("VERIF_TXR_DEBUG", "") != "" {
-				r.Violate("debug", "victim-rejects-honest-block", "%s: err=%v best=%s want=%s", ctx, err, w.name(e.victim.Best()), w.name(h))
-			}
+			_ = err // an honest block refused outright is a block-level matter (C12/C13): contained and counted here
 			r.Count("contained.victim_rejects_honest_block", 1)
 			e.aborted = true
 			return nil
